@@ -15,8 +15,8 @@ pub struct Module {
 	pub(crate) requires: Vec<ModuleRequires>,
 	pub(crate) exports: Vec<ModuleExports>,
 	pub(crate) opens: Vec<ModuleOpens>,
-	pub(crate) uses: Vec<ClassName>,
-	pub(crate) provides: Vec<ModuleProvides>,
+	pub uses: Vec<ClassName>,
+	pub provides: Vec<ModuleProvides>,
 }
 
 make_string_str_like!(
@@ -201,6 +201,6 @@ impl From<ModuleOpensFlags> for u16 {
 
 #[derive(Debug, Clone, PartialEq)]
 pub struct ModuleProvides {
-	pub(crate) name: ClassName,
-	pub(crate) provides_with: Vec<ClassName>,
+	pub name: ClassName,
+	pub provides_with: Vec<ClassName>,
 }
